@@ -870,6 +870,7 @@ def run(ctx):
         raise vlib.BuildError(builds["emb_error"])
     eexe = builds["emb"]
     inv_ok = check_inventory(ctx, tres)
+    t_build = ctx.elapsed()
 
     stats, hist = {}, {}
     b = budgets(ctx)
@@ -877,8 +878,12 @@ def run(ctx):
     exact, meta, history = generate(rng, b)
     n = 0
     n += eval_exact(ctx, exe, mexe, cex + exact, stats)
+    t_exact = ctx.elapsed()
     n += eval_meta(ctx, eexe, cme + meta, stats, hist)
+    t_meta = ctx.elapsed()
     n += eval_history(ctx, eexe, chi + history, stats, hist)
+    stats["seconds"] = {"build+proofs+translator": round(t_build, 1), "exact": round(t_exact - t_build, 1),
+                        "meta": round(t_meta - t_exact, 1), "history": round(ctx.elapsed() - t_meta, 1)}
     searched = False
     if ctx.is_unshown():
         # search phase: a proof / table / correspondence no longer checks and no input violates the spec yet
